@@ -80,6 +80,15 @@ theorem convert_render_iso (r : IsoR) (wf : r.WF) (hfrac : fracSmallestOnly r.nu
 
 example : convert [' ', 'P', '0', 'Y', '1', 'D', 'T', '0', '2', 'H', '3', 'M', '4', ',', '5', '0', 'S', ' '] = .ok (187569 / 2) := by decide +kernel
 
+/-- the fraction may sit in whichever unit is the smallest one present, with either mark, in both
+    formats (instances of the two theorems above for the sub-cases d, h, m) -/
+example : convert ['1', ',', '5', 'd'] = .ok 129600 := by decide +kernel
+example : convert ['1', 'd', ' ', '2', '.', '5', 'H'] = .ok 95400 := by decide +kernel
+example : convert ['1', 'h', '1', ',', '5', 'm'] = .ok 3690 := by decide +kernel
+example : convert ['P', '1', '.', '5', 'D'] = .ok 129600 := by decide +kernel
+example : convert ['P', 'T', '1', ',', '5', 'H'] = .ok 5400 := by decide +kernel
+example : convert ['P', 'T', '1', '.', '5', 'M'] = .ok 90 := by decide +kernel
+
 /-! ### rejections -/
 
 /-- an empty or blank string is refused ("at least one element must be present") -/
@@ -206,31 +215,99 @@ theorem reject_stray_characters (cs : List Char) (c : Char) (hc : c ∈ cs) (hba
 example : ['-', '+', 'e', 'E', '_', 'x', 'W', 'p', 't', 'y', ':', '/', '１', '\u00a0', '\u017f', '\u212a'].all
     (fun c => !allowedChar c) = true := by decide
 
-/-- a unit that is repeated or comes after a smaller one (`1h2h`, `3m1h`, `5s1d`, ...) is refused, for
-    all numbers (fractions included) -/
-theorem reject_repeated_or_misordered_units (a b : NumText) (wa : a.WF) (wb : b.WF) (u v : Char)
-    (hu : isUnitLetter u = true) (hv : isUnitLetter v = true) (hr : unitRank v ≤ unitRank u) :
-    convert (a.text ++ u :: (b.text ++ [v])) = .error .syntax := by
-  have hiso := matchIso_digit a wa (u :: (b.text ++ [v]))
-  have htrad : matchTrad (a.text ++ u :: (b.text ++ [v])) = none := by
-    have sa := fun R => NumText.text_skipWs a wa R
-    have sb := fun R => NumText.text_skipWs b wb R
-    have nb := fun R => text_ne_nil b wb R
-    have ga := fun isU c R hc => optGroup_cons isU a wa c R hc
-    have gb := fun isU c R hc => optGroup_cons isU b wb c R hc
-    have la := fun isU c R hc => optGroupLast_cons isU a wa c R hc
-    have lb := fun isU c R hc => optGroupLast_cons isU b wb c R hc
-    simp only [isUnitLetter, Bool.or_eq_true, beq_iff_eq] at hu hv
-    rcases hu with ((rfl | rfl) | rfl) | rfl <;> rcases hv with ((rfl | rfl) | rfl) | rfl <;>
-      first
-      | (exfalso; revert hr; decide)
-      | (unfold matchTrad
-         simp [sa, sb, ga, gb, la, lb, nb, isUnitLetter, isD, isH, isM, isS, skipWs, isWs])
-  unfold convert
-  rw [htrad, hiso]
+/-- **repeated or misordered units, traditional format**: after any well-formed beginning `r` (pieces
+    with their letters, either case, any whitespace) a further piece of a unit `v` such that `v` itself
+    or a smaller unit has been used already (`1h2h`, `3 M 1 h`, `1d 5s 2D` …) makes the string invalid,
+    whatever follows it. -/
+theorem reject_repeated_or_misordered_units (r : TradP) (wf : r.WF) (v : TUnit)
+    (hfrom : r.hasFrom v = true) (pb : Piece) (wb : pb.WF) (hb : pb.bare = false) (rest : List Char) :
+    convert (r.text (pb.text v.lo v.up ++ rest)) = .error .syntax := by
+  obtain ⟨h1, h2⟩ := matchTrad_misordered r wf v hfrom pb wb hb rest
+  exact convert_syntax _ h1 h2
+
+/-- **ISO format**: after any well-formed beginning `P…` or `P…T…` a further `number designator` group
+    whose designator `V` may not follow any more – `V` or a later designator of the same part has been
+    used (`P1D2D`, `PT3M1H`, `P1M2Y`), or `V` does not belong to that part at all (`P1H`, `PT1D`,
+    `P1DT2Y`, `P1T`) – makes the string invalid, whatever follows it. -/
+theorem reject_misplaced_designator_iso (r : IsoP) (wf : r.WF) (b : NumText) (wb : b.WF) (V : Char)
+    (hV : numEnd V = true) (hcl : r.Closed V) (rest : List Char) :
+    convert (r.text (b.text ++ V :: rest)) = .error .syntax := by
+  have hT : matchTrad (r.text (b.text ++ V :: rest)) = none := matchTrad_P _ _ wf.1
+  refine convert_syntax _ hT ?_
+  obtain ⟨hd, hne⟩ := headSat_digit_text b wb (V :: rest)
+  have blk : ∀ U : Char, V ≠ U → IBlocked U (b.text ++ V :: rest) := fun U h =>
+    iblocked_text U V hV (by simpa using h) b wb rest
+  apply matchIso_bad_tail r wf _ hd hne
+  · intro ht
+    simp only [IsoP.Closed, ht, Bool.false_eq_true, ↓reduceIte, Bool.or_eq_true] at hcl
+    obtain ⟨c1, c2, c3⟩ := hcl
+    refine ⟨?_, ?_, ?_⟩
+    · by_cases h : V = 'Y'
+      · have := c1 h; grind
+      · exact Or.inr (Or.inr (Or.inr (blk _ h)))
+    · by_cases h : V = 'M'
+      · have := c2 h; grind
+      · exact Or.inr (Or.inr (blk _ h))
+    · by_cases h : V = 'D'
+      · exact Or.inl (c3 h)
+      · exact Or.inr (blk _ h)
+  · intro ht
+    simp only [IsoP.Closed, ht, ↓reduceIte, Bool.or_eq_true] at hcl
+    obtain ⟨c1, c2, c3⟩ := hcl
+    refine ⟨?_, ?_, ?_⟩
+    · by_cases h : V = 'H'
+      · have := c1 h; grind
+      · exact Or.inr (Or.inr (Or.inr (blk _ h)))
+    · by_cases h : V = 'M'
+      · have := c2 h; grind
+      · exact Or.inr (Or.inr (blk _ h))
+    · by_cases h : V = 'S'
+      · exact Or.inl (c3 h)
+      · exact Or.inr (blk _ h)
+
+/-- **a second decimal mark** directly behind a number that has a fraction already (`1.5.5`, `1,5,5s`,
+    `2h 3.4.5m`), after any well-formed beginning, whatever follows – traditional format -/
+theorem reject_second_decimal_mark (r : TradP) (wf : r.WF) (w : List Char) (hw : allWs w)
+    (t : NumText) (wt : t.WF) (hfr : t.fr.isSome = true) (c : Char) (hc : isMark c = true)
+    (rest : List Char) :
+    convert (r.text (w ++ (t.text ++ c :: rest))) = .error .syntax := by
+  obtain ⟨h1, h2⟩ := matchTrad_second_mark r wf w hw t wt hfr c hc rest
+  exact convert_syntax _ h1 h2
+
+/-- the same in the ISO format (`PT1.5.5S`, `P1DT2,5,0H`) -/
+theorem reject_second_decimal_mark_iso (r : IsoP) (wf : r.WF) (t : NumText) (wt : t.WF)
+    (hfr : t.fr.isSome = true) (c : Char) (hc : isMark c = true) (rest : List Char) :
+    convert (r.text (t.text ++ c :: rest)) = .error .syntax := by
+  have hT : matchTrad (r.text (t.text ++ c :: rest)) = none := matchTrad_P _ _ wf.1
+  refine convert_syntax _ hT ?_
+  obtain ⟨hd, hne⟩ := headSat_digit_text t wt (c :: rest)
+  have blk : ∀ U ∈ ['Y', 'M', 'D', 'H', 'S'], IBlocked U (t.text ++ c :: rest) := by
+    intro U hU
+    apply iblocked_second_mark U t wt hfr c hc _ rest
+    simp only [isMark, Bool.or_eq_true, beq_iff_eq] at hc
+    simp only [List.mem_cons, List.not_mem_nil, or_false] at hU
+    rcases hc with h | h <;> subst h <;> rcases hU with rfl | rfl | rfl | rfl | rfl <;> decide
+  apply matchIso_bad_tail r wf _ hd hne
+  · intro _
+    exact ⟨Or.inr (Or.inr (Or.inr (blk _ (by simp)))), Or.inr (Or.inr (blk _ (by simp))),
+      Or.inr (blk _ (by simp))⟩
+  · intro _
+    exact ⟨Or.inr (Or.inr (Or.inr (blk _ (by simp)))), Or.inr (Or.inr (blk _ (by simp))),
+      Or.inr (blk _ (by simp))⟩
+
+/-- a sign anywhere makes the string invalid (durations are unsigned) -/
+theorem reject_sign (cs : List Char) (h : '-' ∈ cs ∨ '+' ∈ cs) : convert cs = .error .syntax := by
+  rcases h with h | h
+  · exact reject_stray_characters cs '-' h (by decide)
+  · exact reject_stray_characters cs '+' h (by decide)
 
 example : convert ['3', 'm', '1', 'h'] = .error .syntax := by decide +kernel
 example : convert ['1', 'h', '2', 'h'] = .error .syntax := by decide +kernel
+example : convert ['1', 'd', ' ', '5', 'S', ' ', '2', 'D'] = .error .syntax := by decide +kernel
+example : convert ['P', 'T', '3', 'M', '1', 'H'] = .error .syntax := by decide +kernel
+example : convert ['P', '1', 'H'] = .error .syntax := by decide +kernel
+example : convert ['1', '.', '5', '.', '5', 's'] = .error .syntax := by decide +kernel
+example : convert ['P', 'T', '1', ',', '5', ',', '5', 'S'] = .error .syntax := by decide +kernel
 
 /-- **timestr is the inverse of convert, integers**: for every natural number of seconds and every
     separator made of whitespace, `convert(timestr(n, sep)) = n` exactly. -/
@@ -271,17 +348,16 @@ def approxStep (x : Rat) : Rat :=
   if x < 1 then 1 / 1000 else if x < 10 then 1 / 100 else if x < 60 then 1 / 10
   else if x < 36000 then 1 else if x < 864000 then 60 else 3600
 
-/- Full statement (not proved; checked by the oracle on the explored inputs only):
-     ∀ x ≥ 0 (int or float), ∀ whitespace sep,
-       convert (timestrApprox x sep) = approxValue x  ∧  |approxValue x - x| < approxStep x.
-   Proved below: the error bound (in fact half a step) for the value `timestr_approx` prints, for every
-   integer argument and for every float argument from 10 hours on, i.e. wherever the chain of decimal
-   roundings below one minute is not involved; including the corner where rounding to minutes reaches
-   exactly 10 days and the value is rounded again to hours. -/
-theorem timestr_approx_error_partial (x : Secs)
-    (hx : (∃ n : Nat, x = .int n) ∨ (∃ q : Rat, x = .float q ∧ 36000 ≤ q)) :
-    let v : Rat := match x with | .int n => (n : Rat) | .float q => q
-    approxValue x - v < approxStep v ∧ v - approxValue x < approxStep v := by
+/-- **timestr_approx**: for every non-negative argument (an int, or the exact value of a float) and
+    every whitespace separator the function prints a string that `convert` maps back to the value
+    `approxValue x` it stands for (the inverse relation for the approximate rendering), and that value
+    differs from the argument by less than the documented rounding step of the argument's magnitude
+    class (in fact by at most half of it) – including the carries from one class into the next
+    (0.9996 → `1.00s`, 59.96 → `1m0s`, 35999.6 → `10h0m`, 863990 → `10d0h`). -/
+theorem timestr_approx_error (x : Secs) (hx : 0 ≤ x.val) (sep : List Char) (hs : allWs sep) :
+    ∃ txt, timestrApprox x sep = some txt ∧ convert txt = .ok (approxValue x) ∧
+      approxValue x - x.val < approxStep x.val ∧ x.val - approxValue x < approxStep x.val := by
+  -- the coarse part alone (ints, floats from 10 hours on)
   have key : ∀ a : AVal, 0 ≤ a.v →
       (approxCoarse a).a.v - a.v < approxStep a.v ∧ a.v - (approxCoarse a).a.v < approxStep a.v := by
     intro a ha
@@ -305,22 +381,74 @@ theorem timestr_approx_error_partial (x : Secs)
         have n3 : ¬ a.v < 60 := by grind
         simp only [n1, n2, n3, c1, c2, ↓reduceIte]
         constructor <;> grind
-  rcases hx with ⟨n, rfl⟩ | ⟨q, rfl, hq⟩
-  · have hn0 : (0 : Rat) ≤ ((n : Int) : Rat) := by
-      have : (0 : Rat) ≤ (n : Rat) := by exact_mod_cast Nat.zero_le n
-      rw [Rat.intCast_natCast]; exact this
-    have := key ⟨((n : Int) : Rat), false, 0⟩ hn0
-    simpa [approxValue] using this
-  · have n1 : ¬ q < 1 := by grind
-    have n2 : ¬ (1 ≤ q ∧ q < 10) := by grind
-    have n3 : ¬ (10 ≤ q ∧ q < 60) := by grind
-    have c : ((10 * Gen.secPerHour : Nat) : Rat) = 36000 := by decide
-    have n4 : ¬ (60 ≤ q ∧ q < ((10 * Gen.secPerHour : Nat) : Rat)) := by rw [c]; grind
-    have hf : approxFloat q = ⟨q, true, 0⟩ := by
-      unfold approxFloat
-      simp only [n1, n2, n3, n4, ↓reduceIte]
-    have := key ⟨q, true, 0⟩ (by grind)
-    simpa [approxValue, hf] using this
+  -- floats below 10 hours: the value delivered by the decimal roundings is not touched any more
+  have small : ∀ (q : Rat) (a : AVal) (half : Rat), FloatSpec q a half → half + half ≤ approxStep q →
+      0 < half →
+      (approxCoarse a).a.v - q < approxStep q ∧ q - (approxCoarse a).a.v < approxStep q := by
+    intro q a half ⟨h0, b1, b2, _, hc⟩ hstep hpos
+    have hv : (approxCoarse a).a.v = a.v := by
+      rcases hc with hc | hc
+      · exact (approxCoarse_bounds a h0).1 hc
+      · rw [hc]; exact approxCoarse_36000.trans (by decide)
+    rw [hv]
+    constructor <;> grind
+  cases x with
+  | int n =>
+    have hn : 0 ≤ n := by
+      have : (0 : Rat) ≤ ((n : Int) : Rat) := hx
+      exact_mod_cast this
+    have hnot : ¬ n < 0 := by omega
+    have hgrid : OnGrid ⟨(n : Rat), false, 0⟩ := by
+      refine ⟨n.toNat, ?_⟩
+      simp only [Bool.false_eq_true, ↓reduceIte]
+      have e1 : ((10 ^ 0 : Nat) : Rat) = 1 := by decide
+      have e2 : ((n.toNat : Nat) : Rat) = ((n : Int) : Rat) := by
+        have := Int.toNat_of_nonneg hn
+        exact_mod_cast congrArg (fun z : Int => (z : Rat)) this
+      rw [e1, e2]
+      grind
+    refine ⟨approxRender (approxCoarse ⟨(n : Rat), false, 0⟩) sep, by simp [timestrApprox, hnot], ?_, ?_⟩
+    · exact convert_approxRender_coarse _ hx (fun _ => hgrid) sep hs
+    · exact key ⟨(n : Rat), false, 0⟩ hx
+  | float q =>
+    have hq : 0 ≤ q := hx
+    have hnot : ¬ q < 0 := Rat.not_lt.mpr hq
+    refine ⟨approxRender (approxCoarse (approxFloat q)) sep, by simp [timestrApprox, hnot], ?_, ?_⟩
+    · show convert (approxRender (approxCoarse (approxFloat q)) sep) =
+        .ok (approxCoarse (approxFloat q)).a.v
+      by_cases c : q < 36000
+      · have spec : ∃ half, FloatSpec q (approxFloat q) half := by
+          by_cases c1 : q < 1
+          · exact ⟨_, class1 q hq c1⟩
+          · by_cases c2 : q < 10
+            · exact ⟨_, class2 q (by grind) c2⟩
+            · by_cases c3 : q < 60
+              · exact ⟨_, class3 q (by grind) c3⟩
+              · exact ⟨_, class4 q (by grind) c⟩
+        obtain ⟨half, h0, _, _, hg, _⟩ := spec
+        exact convert_approxRender_coarse _ h0 (fun _ => hg) sep hs
+      · have hl := approxFloat_large q (by grind)
+        rw [hl]
+        exact convert_approxRender_coarse ⟨q, true, 0⟩ hq (fun h => absurd h c) sep hs
+    · show (approxCoarse (approxFloat q)).a.v - q < approxStep q ∧
+        q - (approxCoarse (approxFloat q)).a.v < approxStep q
+      by_cases c1 : q < 1
+      · have hs1 : approxStep q = 1 / 1000 := by unfold approxStep; rw [if_pos c1]
+        exact small q _ _ (class1 q hq c1) (by rw [hs1]; grind) (by grind)
+      · by_cases c2 : q < 10
+        · have hs2 : approxStep q = 1 / 100 := by unfold approxStep; rw [if_neg c1, if_pos c2]
+          exact small q _ _ (class2 q (by grind) c2) (by rw [hs2]; grind) (by grind)
+        · by_cases c3 : q < 60
+          · have hs3 : approxStep q = 1 / 10 := by
+              unfold approxStep; rw [if_neg c1, if_neg c2, if_pos c3]
+            exact small q _ _ (class3 q (by grind) c3) (by rw [hs3]; grind) (by grind)
+          · by_cases c4 : q < 36000
+            · have hs4 : approxStep q = 1 := by
+                unfold approxStep; rw [if_neg c1, if_neg c2, if_neg c3, if_pos c4]
+              exact small q _ _ (class4 q (by grind) c4) (by rw [hs4]; grind) (by grind)
+            · have hl := approxFloat_large q (by grind)
+              rw [hl]
+              exact key ⟨q, true, 0⟩ hq
 
 example : timestrApprox (.int 863990) [] = some ['1', '0', 'd', '0', 'h'] := by decide +kernel
 example : timestrApprox (.float (9996 / 1000)) [] = some ['1', '0', '.', '0', 's'] := by decide +kernel
@@ -332,6 +460,12 @@ theorem negative_to_zero (q : Rat) (k : Kind) :
 theorem negative_number_is_zero (q : Rat) (k : Kind) (hq : q < 0) :
     timePeriod (.atom (.num q k)) = .ok (some 0) := by
   rw [negative_to_zero, if_pos hq]
+
+/-- non-negative numbers pass through unchanged – ints, floats and also bools (the code converts
+    every `int`, hence also `True`/`False`, with `float()`; bools are not refused) -/
+theorem period_number_identity (q : Rat) (k : Kind) (hq : 0 ≤ q) :
+    timePeriod (.atom (.num q k)) = .ok (some q) := by
+  rw [negative_to_zero, if_neg (Rat.not_lt.mpr hq)]
 
 /-- `None` stays `None` -/
 theorem none_to_none : timePeriod Val.none = .ok none := rfl
